@@ -145,9 +145,9 @@ variable (files : Files) (L : Nat)
 /-- the feeder inside the decoder state is live and announces nothing but `L` -/
 def LJ (st : Lzx.St Feeder) : Prop := FeederLive st.src ∧ FeederLen files L st.src
 
-def LE : Lzx.Halt → Lzx.St Feeder → Prop
+def LE (_files : Files) (_L : Nat) : Lzx.Halt → Lzx.St Feeder → Prop
   | .fault f, _ => ∀ w, f ≠ .nullDeref w
-  | .sys _, st => st.error = .ok → LJ files L st
+  | .sys _, st => st.error ≠ .ok
 
 theorem LJ_of {files : Files} {L : Nat} {a b : Lzx.St Feeder} (h : LJ files L a) (h1 : b.src = a.src) :
     LJ files L b := by
@@ -200,8 +200,14 @@ theorem e8Loop_en (dataend : Nat) (filesize : Int) : ∀ fuel p curpos (buf : Ar
 theorem outSlice_en (st : Lzx.St Feeder) (n : Nat) : EN (outSlice st n) := by
   unfold outSlice; en_auto
 
-theorem fail_thr {α : Type} (e : Err) : Thr (LJ files L) (LE files L) (fail (σ := Feeder) (α := α) e) := by
-  unfold fail; thr_auto
+theorem fail_thr {α : Type} : Thr (LJ files L) (LE files L) (fail (σ := Feeder) (α := α) .decrunch) := by
+  constructor
+  intro st hj r s' h
+  unfold fail at h
+  rw [CountLaws.Qtm.run_modify_bind] at h
+  cases h
+  show ({ st with error := Err.decrunch } : Lzx.St Feeder).error ≠ .ok
+  intro he; cases he
 
 theorem readInput_thr : Thr (LJ files L) (LE files L) (readInput (feederSrc files)) := by
   unfold readInput
@@ -397,18 +403,18 @@ theorem frameBody_cg (fuel outBytes : Nat) : Cg (LJ files L) (LE files L)
 
 /-! ### the API level -/
 
-/-- one call: a fault is not a null dereference; the state returned satisfies `LJ` unless the sticky
-    error is set -/
+/-- one call: a fault is not a null dereference; unless the sticky error is set in the state returned,
+    that state satisfies `LJ` and the status returned is OK -/
 def LOut : Except Fault (DecodeOut (Lzx.St Feeder)) → Prop
   | .error f => ∀ w, f ≠ .nullDeref w
-  | .ok o => o.st.error = .ok → LJ files L o.st
+  | .ok o => o.st.error = .ok → LJ files L o.st ∧ o.err = .ok
 
 theorem frameLoop_tail (st : Lzx.St Feeder) (outBytes : Nat) (acc : Array UInt8) (hj : LJ files L st) :
     LOut files L (if outBytes ≠ 0 then .ok ⟨.decrunch, acc.toList, { st with error := .decrunch }⟩
       else .ok ⟨.ok, acc.toList, st⟩) := by
   split
   · intro he; cases he
-  · exact fun _ => hj
+  · exact fun _ => ⟨hj, rfl⟩
 
 theorem frameLoop_cg (fuel endFrame : Nat) : ∀ (n : Nat) (st : Lzx.St Feeder) (outBytes : Nat) (acc : Array UInt8),
     LJ files L st →
@@ -438,7 +444,7 @@ theorem frameLoop_cg (fuel endFrame : Nat) : ∀ (n : Nat) (st : Lzx.St Feeder) 
         | ok chunk => exact ih _ _ _ hp
         | error e =>
           cases e with
-          | sys e => exact ⟨rfl, hp⟩
+          | sys e => exact ⟨rfl, fun he => absurd he hp⟩
           | fault f => exact ⟨rfl, hp⟩
     · simp only [if_neg hc]
       exact ⟨trivial, frameLoop_tail files L st outBytes acc hj⟩
@@ -449,7 +455,7 @@ theorem decompress_cg (fuel : Nat) (st : Lzx.St Feeder) (n : Nat) (hj : st.error
   unfold Lzx.decompress
   by_cases he : st.error ≠ .ok
   · simp only [if_pos he]
-    exact ⟨trivial, hj⟩
+    exact ⟨trivial, fun h => absurd h he⟩
   · simp only [if_neg he]
     have hj' : LJ files L st := hj (Decidable.not_not.mp he)
     cases ho : outSlice st (min (st.oEnd - st.oPtr) n) with
@@ -458,7 +464,7 @@ theorem decompress_cg (fuel : Nat) (st : Lzx.St Feeder) (n : Nat) (hj : st.error
       dsimp only
       by_cases h0 : n - min (st.oEnd - st.oPtr) n = 0
       · simp only [if_pos h0]
-        exact ⟨trivial, fun _ => LJ_of hj' rfl⟩
+        exact ⟨trivial, fun _ => ⟨LJ_of hj' rfl, rfl⟩⟩
       · simp only [if_neg h0]
         exact frameLoop_cg files L fuel _ _ _ _ _ (LJ_of hj' rfl)
 
